@@ -58,6 +58,17 @@ theorem intervals_avoid_sites (mg : α) (ef : Bool) {sites : List α} (L : α)
   rintro ⟨h1, h2⟩
   rcases key with h | h <;> linarith
 
+/-- Corollary in the form of the property statement: filtering the site list by "not inside any
+computed interval" (what tskit's `delete_intervals` does to the site table) keeps every site. -/
+theorem all_sites_kept (mg : α) (ef : Bool) {sites : List α} (L : α) (hs : sites.Pairwise (· < ·)) :
+    sites.filter (fun s => !(computedIntervals mg ef sites L).any (fun iv => decide (iv.1 ≤ s ∧ s < iv.2)))
+      = sites := by
+  rw [List.filter_eq_self]
+  intro s hsm
+  simp only [Bool.not_eq_eq_eq_not, Bool.not_true, List.any_eq_false, decide_eq_true_eq]
+  intro iv hiv
+  exact (intervals_avoid_sites mg ef L hs iv hiv s hsm).2
+
 /-- **The list handed to tskit is sorted, the intervals are non-empty and pairwise disjoint** (with a
 gap between consecutive ones), as `delete_intervals` requires. -/
 theorem intervals_sorted_disjoint (mg : α) (ef : Bool) {sites : List α} (L : α)
